@@ -15,6 +15,7 @@
 
 #include <fmt/core.h>
 
+#include <exception>
 #include <string>
 #include <string_view>
 #include <optional>
@@ -173,6 +174,13 @@ int main(int argc, char** argv)
     {
         // message is not a format string, it can contain `{`/`}` taken from
         // the schema or a file name
+        reporter.error("{}", e.what());
+        return 1;
+    }
+    catch(const std::exception& e)
+    {
+        // e.g. `std::bad_alloc` for a schema that declares a multi-gigabyte
+        // constant, report it instead of calling `std::terminate()`
         reporter.error("{}", e.what());
         return 1;
     }
